@@ -116,6 +116,17 @@ func main() {
 			tries, _ = strconv.Atoi(os.Args[3])
 		}
 		os.Exit(sim.RunRaceOne(os.Args[2], tries))
+	case "exec-one":
+		// execute one script file in this process; used to observe hangs and fatal errors
+		s, err := sim.ReadScript(os.Args[2])
+		if err != nil {
+			os.Exit(2)
+		}
+		e := sim.EngineFor(s.Property)
+		if e == nil {
+			os.Exit(2)
+		}
+		e.Exec(s, false)
 	case "selftest":
 		exe, _ := os.Executable()
 		n := 200
